@@ -517,6 +517,29 @@ func VerifC13_CancelRaces() {
 	rt.Reach("cancelraces-end")
 }
 
+// a cancel sent right behind its sub / qsub (the requests of one connection are
+// handled concurrently): whichever handler runs first, the subscription is
+// cancelled - nothing is announced under the ID afterwards
+func VerifC13_CancelRightBehindSub() {
+	rt.SchedYieldOnly(false) // every blocking point is a scheduling choice
+	rt.CodecFaults(false)
+	api := c13Setup()
+	method := []string{"sub", "qsub"}[rt.Choice("method", 2)]
+	api.Handle(c13Msg("s5", method, "query tdb:s/"))
+	api.Handle([]byte("s5|cancel"))
+	rt.Quiesce(time.Second)
+	before := len(c13Replies)
+	api.Handle(append(c13Msg("w1", "create", "tdb:s/new|"), 'J', '{', '}'))
+	rt.Quiesce(time.Second)
+	for _, r := range c13Replies[before:] {
+		rt.Assert(!bytes.HasPrefix(r, []byte("s5|")), "cancelbehind/nothing-announced-after-the-cancel")
+	}
+	api.subsLock.Lock()
+	rt.Assert(len(api.subs) == 0, "cancelbehind/subscription-removed")
+	api.subsLock.Unlock()
+	rt.Reach("cancelbehind-end")
+}
+
 // ---- qsub: a matching write that lands while the query phase is still
 // running is not lost: it shows up as a notification after the query replies ----
 
